@@ -2,6 +2,7 @@ package bloomsearch
 
 import (
 	"context"
+	"errors"
 	"fmt"
 	"hash"
 	"hash/crc32"
@@ -305,7 +306,7 @@ func (iw *vpImgWorld) readBlockRows(id int, blk *DataBlockMetadata) []string {
 	f, err := iw.store.OpenFile(context.Background(), vpPointer(id))
 	vpAssert(err == nil, "C17: a committed file cannot be opened")
 	data, err := ReadDataBlockRowData(f, blk)
-	vpAssert(err == nil, "C17: a block of a freshly written file does not read back (extent, size or CRC in its metadata is wrong)")
+	vpAssert(err == nil, "C17: a block of a freshly written file does not read back (extent, size, CRC or compression tag in its metadata is wrong)")
 	sc := NewBlockRowScanner(data)
 	var out []string
 	total := 0
@@ -320,7 +321,7 @@ func (iw *vpImgWorld) readBlockRows(id int, blk *DataBlockMetadata) []string {
 	}
 	vpAssert(len(out) == blk.Rows, "C17: the block's metadata row count differs from the rows stored in it")
 	vpAssert(total == blk.UncompressedSize, "C17: the block's UncompressedSize differs from its stored rows")
-	vpAssert(blk.HasRowDataHash && blk.Compression == CompressionNone, "C17: the block's metadata does not state its hash / compression")
+	vpAssert(blk.HasRowDataHash && (blk.Compression == CompressionNone || blk.Compression == iw.b.config.RowDataCompression), "C17: the block's metadata does not state its hash / compression")
 	return out
 }
 
@@ -375,3 +376,49 @@ func vpSameMultiset(a, b []string) bool {
 
 // a constant 5-byte filter section (file images with fully concrete bytes)
 func vpEncodeSectionConst(f *BloomFilters) ([]byte, error) { return []byte{9, 2, 3, 4, 5}, nil }
+
+// A stand-in codec for "snappy" (the real codecs are library code the executor does not run): the
+// encoder writes one marker byte and then the rows as they are; the decoder — a stand-in for
+// decodeBlockRowDataInto that repeats its hash check and its dispatch on the block's OWN tag —
+// demands and strips the marker. A block whose tag does not say how its bytes were really encoded
+// therefore fails to read back, exactly as with the real codecs.
+type vpTagWriter struct {
+	dst   io.Writer
+	wrote bool
+}
+
+func (t *vpTagWriter) Write(p []byte) (int, error) {
+	if !t.wrote {
+		t.wrote = true
+		if _, err := t.dst.Write([]byte{0xEE}); err != nil {
+			return 0, err
+		}
+	}
+	return t.dst.Write(p)
+}
+
+func vpCreateCompressionWriterTagged(b *BloomSearchEngine, dest io.Writer) (*compressionEncoders, error) {
+	if b.config.RowDataCompression == CompressionSnappy {
+		return &compressionEncoders{writer: &vpTagWriter{dst: dest}}, nil
+	}
+	return &compressionEncoders{writer: dest}, nil
+}
+
+func vpDecodeTagged(dst []byte, compressed []byte, block *DataBlockMetadata) ([]byte, error) {
+	if block.HasRowDataHash && crc32.Checksum(compressed, crc32cTable) != block.RowDataHash {
+		return nil, errors.New("row data hash mismatch")
+	}
+	switch normalizeCompression(block.Compression) {
+	case CompressionNone:
+		return compressed, nil
+	case CompressionSnappy:
+		if len(compressed) < 1 || compressed[0] != 0xEE {
+			return nil, errors.New("not a stream of the stand-in codec")
+		}
+		if len(compressed)-1 != block.UncompressedSize {
+			return nil, errors.New("row data length differs from metadata UncompressedSize")
+		}
+		return compressed[1:], nil
+	}
+	return nil, errors.New("unsupported compression type")
+}
